@@ -39,17 +39,32 @@ def run(repo: Repo, rep: Report, tier: str) -> None:
     pres = repo.mod("presentation")
     rt = RoleTable(repo)
     table = rt.table
-    normal = AcceptorModel(repo, "negotiate_as_acceptor")
-    unres = AcceptorModel(repo, "negotiate_unrestricted")
+    # decisions are computed by evaluating the functions themselves (sa/nego_eval.py); the shape-derived
+    # parameters of RequestorModel are only used for what they were written for (ACSE normalisation, lookup typestate)
+    from ..minipy import Unsupported
+    from ..nego_eval import NegoEval
+
+    ne = NegoEval(repo)
+
+    class _M:
+        def __init__(self, fname):
+            self.fname, self.fn = fname, repo.func("presentation", fname)
+            self.fixed_setting = (True, True)
+
+    normal, unres = _M("negotiate_as_acceptor"), _M("negotiate_unrestricted")
     rq = RequestorModel(repo)
-    rep.check(rq.idx == (0, 1), "complementary", "presentation.negotiate_as_requestor", f"as_scu, as_scp = outcome{list(rq.idx)}", "the requestor's roles are elements 0 and 1 of the outcome tuple", mod=pres, node=rq.node)
     if rq.lookup_problem is None:
         rep.ok("iteration-independent", "presentation.negotiate_as_requestor :: ac_roles is bound in every iteration to this context's reply or (None, None)")
     else:
         g_, text_, path_ = rq.lookup_problem
         rep.fail("iteration-independent", "presentation.negotiate_as_requestor", g_, text_ + ": the requestor then decides its roles for this context from the acceptor's answer about another SOP class while the acceptor applies its defaults - the two ends disagree on who is SCU / SCP", mod=pres, node=g_, path=path_)
-    rep.check(rq.default == (True, False), "complementary", "presentation.negotiate_as_requestor", f"default roles {rq.default}", "without a role reply the requestor is SCU only", mod=pres, node=rq.node)
-    rep.check(normal.default == (False, True), "complementary", "presentation.negotiate_as_acceptor", f"default roles {normal.default}", "without role negotiation the acceptor is SCP only", mod=pres, node=normal.fn)
+    try:
+        d_rq = ne.requestor((None, None), 0, None)
+        d_ac = ne.acceptor(None, (None, None))
+        rep.check((d_rq.get("as_scu"), d_rq.get("as_scp")) == (True, False), "complementary", "presentation.negotiate_as_requestor", f"default roles {(d_rq.get('as_scu'), d_rq.get('as_scp'))}", "without a role reply the requestor is SCU only", mod=pres, node=rq.node)
+        rep.check((d_ac.get("as_scu"), d_ac.get("as_scp")) == (False, True), "complementary", "presentation.negotiate_as_acceptor", f"default roles {(d_ac.get('as_scu'), d_ac.get('as_scp'))}", "without role negotiation the acceptor is SCP only", mod=pres, node=normal.fn)
+    except Unsupported as exc:
+        rep.defer(f"presentation negotiation not evaluable: {exc}")
 
     # ---- normalisation ------------------------------------------------------------
     acse = repo.mod("acse")
@@ -72,18 +87,27 @@ def run(repo: Repo, rep: Report, tier: str) -> None:
             for s in sets:
                 n += 1
                 try:
-                    d = model.decide(table, wire_p, s)
-                except KeyError as exc:
-                    rep.fail("complementary", f"presentation.{model.fname}", f"[{mode}] proposal={p} setting={s}: table lookup {exc}", "the acceptor's table lookup has no entry for this combination (KeyError at run time)", mod=pres, node=model.fn)
+                    d = ne.acceptor(wire_p, s) if mode == "normal" else ne.unrestricted(wire_p)
+                except Unsupported as exc:
+                    rep.defer(f"presentation.{model.fname}: not evaluable on proposal={p}, setting={s}: {exc}")
+                    continue
+                if "result" not in d:
+                    rep.fail("complementary", f"presentation.{model.fname}", f"[{mode}] proposal={p} setting={s}: {d}", "the acceptor does not produce one result for this proposed context (a table lookup without an entry raises at run time, or the context is dropped / duplicated)", mod=pres, node=model.fn)
                     continue
                 reply = d["reply"]
                 if reply is not None:
+                    # what the role sub-item carries: two bits
                     reply = (bool(reply[0]), bool(reply[1]))
                 try:
-                    r_scu, r_scp = rq.decide(table, local_p, d["result"], reply)
-                except KeyError as exc:
-                    rep.fail("complementary", "presentation.negotiate_as_requestor", f"[{mode}] proposal={p} setting={s}: table lookup {exc}", "the requestor's table lookup has no entry for this combination (KeyError at run time)", mod=pres, node=rq.node)
+                    r = ne.requestor(local_p if local_p is not None else (None, None), d["result"], reply)
+                except Unsupported as exc:
+                    rep.defer(f"presentation.negotiate_as_requestor: not evaluable: {exc}")
                     continue
+                if "result" not in r:
+                    rep.fail("complementary", "presentation.negotiate_as_requestor", f"[{mode}] proposal={p} setting={s}: {r}", "the requestor does not produce one result for this proposed context (a table lookup without an entry raises at run time, or the context is dropped / duplicated)", mod=pres, node=rq.node)
+                    continue
+                r_scu, r_scp = r["as_scu"], r["as_scp"]
+                rep.check(r["result"] == d["result"], "requestor-view", "presentation.negotiate_as_requestor", f"[{mode}] proposal={p} setting={s}: acceptor result {d['result']}, requestor records {r['result']}", "the requestor must record the acceptor's result for the context", mod=pres, node=rq.node)
                 inst = f"[{mode}] proposal={p}, acceptor roles={s}"
                 if d["result"] == 0:
                     ok = (r_scu == d["as_scp"]) and (r_scp == d["as_scu"])
@@ -93,13 +117,16 @@ def run(repo: Repo, rep: Report, tier: str) -> None:
     rep.floor("role-space points", n, 90)
     rep.extra["role_space_points"] = n
     rep.extra["exhaustive"] = True
-    rep.sample({"point": "[normal] proposal=(True, True), acceptor roles=(False, True)", "acceptor": normal.decide(table, (True, True), (False, True)), "requestor": rq.decide(table, (True, True), 0, (False, True))})
+    rep.sample({"point": "[normal] proposal=(True, True), acceptor roles=(False, True)", "acceptor": ne.acceptor((True, True), (False, True)), "requestor": ne.requestor((True, True), 0, (False, True))})
 
     # ---- requestor view ---------------------------------------------------------------------------
     fn = rq.fn
     fq = "presentation.negotiate_as_requestor"
     check_one_result(rep, pres, fn, fq, "output", ["requestor_contexts.items()"])
     check_iteration_independent(rep, pres, fn, fq, "requestor_contexts.items()", ["output"])
+    # the acceptor's loop decides what the requestor is told: it must be iteration-independent too
+    fa_ = repo.func("presentation", "negotiate_as_acceptor")
+    check_iteration_independent(rep, pres, fa_, "presentation.negotiate_as_acceptor", "requestor_contexts.items()", ["result_contexts", "reply_roles"])
     src = [norm(s) for s in walk_no_nested(fn) if isinstance(s, ast.stmt)]
     dicts = "requestor_contexts = {context.context_id: context for context in rq_contexts}" in src and "acceptor_contexts = {context.context_id: context for context in ac_contexts}" in src
     rep.check(dicts, "requestor-view", fq, "requested and replied contexts are matched by context id", "the reply for a requested context is the result item carrying the same context id", mod=pres, node=fn)
@@ -169,6 +196,10 @@ def run(repo: Repo, rep: Report, tier: str) -> None:
             check_reply_ownership(rep, pres, fn_, f"presentation.{fname_}", "reply_roles")
     check_unique_ids(repo, rep)
 
+    # ---- what crosses the wire is converted completely ------------------------------------------------
+    from ..delegate import delegate
+    rep.rule("wire-conversion", "the A-ASSOCIATE PDUs convert to / from primitives without dropping or defaulting a parameter (C01's primitive-pairs rule)")
+    delegate(repo, rep, tier, "C01", ("primitive-pairs",), "wire-conversion", "a proposed context or its result can vanish between the PDU and the primitive: it then appears neither as accepted nor as rejected on the requestor side, or the two sides hold different sets")
 
 def _affine(e, var: str):
     """expression over one integer variable -> (a, b) with e == a*var + b, or None"""
